@@ -125,45 +125,60 @@ def r1(ctx):
 
 
 def r2(ctx):
+    from . import feval as E
     f = ctx.facts
     types = tables.table_types(f)
-    s = f.body("store::fs::Store::set_download_policy")
-    bi, t = one_call(s, r"store::fs::Store::modify")
-    cl = [d for d in t["f"]["tdefs"] if d and "{closure" in d]
-    c = f.body(cl[0])
+    s, c = tables.tx_body(f, "store::fs::Store::set_download_policy", DP)
     ctx.touch(s, c)
-    ins = [(bi2, t2) for bi2, t2 in c.calls() if (tables.call_table(t2, types) or (None, None))[:2] == (DP, "insert")]
-    if len(ins) != 1:
-        raise mir.AnchorMissing("expected one download_policy.insert in set_download_policy, found %d" % len(ins))
-    ibi, it = ins[0]
-    ex = [(b2, t2) for b2, t2 in c.calls() if (tables.call_table(t2, types) or (None, None))[:2] == ("namespaces", "get")]
-    dom = False
-    for ebi, et in ex:
-        for sbi, st in c.calls():
-            if st["f"].get("name") in ("is_some", "is_none"):
-                oc = call_outcomes(c, sbi)
-                e = oc.get("true" if st["f"].get("name") == "is_some" else "false")
-                if e and c.edge_dominates(e[0], e[1], ibi):
-                    dom = True
-    ctx.check(dom, "C15.R2", s.path, "write-dominated-by-document-exists", "download_policy.insert runs only on the document-exists edge", it["sp"])
-    if ex:
-        k = {origin_summary(o) for o in trace(c, ex[0][1]["a"][1])}
-        ctx.check(k == {"upvar:namespace"}, "C15.R2", s.path, "exists-check-on-this-namespace", "%s" % sorted(k), ex[0][1]["sp"])
-    key = {origin_summary(o) for o in trace(c, it["a"][1])}
-    ctx.check(key == {"upvar:namespace"}, "C15.R2", s.path, "key-is-namespace-argument", "%s" % sorted(key), it["sp"])
-    val = trace(c, it["a"][2], through_calls=False)
-    okv = False
-    for o in val:
-        chain = o
-        # value.as_slice() <- value <- branch(to_stdvec(&policy))
-        for o2 in trace(c, it["a"][2]):
-            if o2.kind == "call" and o2.data["f"].get("name") in ("to_stdvec", "to_allocvec", "to_vec"):
-                src = {origin_summary(x) for x in trace(c, o2.data["a"][0])}
-                okv = src == {"upvar:policy"}
-    ctx.check(okv, "C15.R2", s.path, "value-is-postcard(policy-argument)", "stored bytes = postcard::to_stdvec(&policy)", it["sp"])
-    ens = Ensures(f, r"redb::Table::<.*>::insert")
-    ok, why = ens.ensures_body(c)
-    ctx.check(ok, "C15.R2", s.path, "every-ok-return-passed-the-write", why + ("" if ok else ": set_download_policy can report success without storing the policy, so a later read returns a different policy"), c.sp)
+    # set_download_policy evaluated (K6') on {document exists, not} x {write ok, fails}; Store::modify runs the given transaction body
+    for exists, wr, same in ((1, "ok", 0), (1, "ok", 1), (1, "err", 0), (0, "ok", 0), (0, "ok", 1)):
+        if True:
+            log = []
+
+            def oracle(kind, name, payload, site, exists=exists, wr=wr, same=same):
+                if kind in ("eq", "cmp") and "policy" in str(name) + str(payload):
+                    # any comparison of the new policy with another policy (the default, the stored one): both answers are explored
+                    return bool(same) if kind == "eq" else (0 if same else 1)
+                if kind != "call":
+                    return None
+                t, args, it = payload
+                names = [it.tokname(a) for a in args]
+                if callee_matches(t, r"store::fs::Store::modify$"):
+                    it.heap.setdefault("tables", E.Tok("tables"))
+                    return it.apply(args[1], [E.href("tables")])
+                ct = tables.call_table(t, types)
+                if ct and ct[1] == "get" and ct[0] == "namespaces":
+                    log.append(("namespaces.get", names[1:]))
+                    return E.Ok(E.Some(E.Tok("rowguard"))) if exists else E.Ok(E.NONE)
+                if ct and ct[1] in tables.WRITE_OPS:
+                    log.append(("%s.%s" % (ct[0], ct[1]), names[1:]))
+                    return E.Ok(E.NONE) if wr == "ok" else E.Err(E.Tok("storage-error"))
+                if name in ("to_stdvec", "to_allocvec", "to_vec") and callee_matches(t, r"postcard"):
+                    return E.Ok(E.Tok("postcard(%s)" % names[0]))
+                if name in ("as_bytes", "to_bytes"):
+                    return E.Tok("b(%s)" % names[0])
+                return None
+            heap = {"self": E.Tok("store"), "namespace": E.Tok("namespace")}
+            sig = [l["ty"] for l in s.locals[1:4]]
+            args = [E.href("self"), E.href("namespace") if sig[1].startswith("&") else E.Tok("namespace"), E.Tok("policy")]
+            try:
+                ret, hp, ev = E.run(f, s.path, args, heap, oracle)
+                got = E.describe(ret, f)
+            except E.Unsupported as e:
+                got = "UNSUPPORTED-FORM: %s" % e
+            writes = [x for x in log if x[0] != "namespaces.get"]
+            gets = [x for x in log if x[0] == "namespaces.get"]
+            if not exists:
+                ok = got.startswith("Err") and not writes
+                spec = "unknown document: error, nothing stored"
+            elif wr == "ok":
+                ok = got == "Ok(())" and writes == [(DP + ".insert", ["b(namespace)", "postcard(policy)"])]
+                spec = "Ok only after storing postcard(policy) under this namespace"
+            else:
+                ok = got.startswith("Err") and writes == [(DP + ".insert", ["b(namespace)", "postcard(policy)"])]
+                spec = "a failed write is reported"
+            ok = ok and gets == [("namespaces.get", ["b(namespace)"])]
+            ctx.check(ok, "C15.R2", s.path, "set[%s,write-%s%s]" % ("document-exists" if exists else "unknown-document", wr, ",policy-equals-whatever-it-is-compared-with" if same else ""), "returns %s; effects %s; spec: %s" % (got, log, spec), c.sp)
     # reader
     g = f.body("store::fs::Store::get_download_policy")
     ctx.touch(g)
@@ -179,14 +194,18 @@ def r2(ctx):
     ok = len(agg) == 1 and agg[0]["r"][1][2] == "EverythingExcept" and any(t2["f"].get("name") == "default" or t2["f"].get("name") == "new" for _, t2 in d.calls())
     ctx.check(ok, "C15.R2", d.path, "default-is-EverythingExcept(empty)", "default policy downloads everything", d.sp)
     # who may write the table
-    allowed = {c.path, "store::fs::Store::remove_replica::{closure#0}"}
+    roots = {"store::fs::Store::set_download_policy", "store::fs::Store::remove_replica"}
+    nw = 0
     for b2, bi2, t2, name, op, ro in tables.writes(f, types):
         if name != DP:
             continue
         if b2.path.startswith("store::fs::migrat"):
             continue
-        ctx.check(b2.path in allowed, "C15.R2", b2.path, "writer-of-download_policy.%s" % op, "download_policy is written only by set_download_policy and remove_replica", t2["sp"])
-    ctx.floor("C15.R2", 10)
+        nw += 1
+        ctx.check(f.only_reached_from(b2.path, roots), "C15.R2", b2.path, "writer-of-download_policy.%s" % op, "download_policy is written only by set_download_policy and remove_replica (or helpers only they call)", t2["sp"])
+    if nw < 2:
+        raise mir.AnchorMissing("expected >=2 writes of the download_policy table, found %d" % nw)
+    ctx.floor("C15.R2", 9)
 
 
 def r3(ctx):
